@@ -171,7 +171,85 @@ type nilCheck struct {
 	NonNil, Nil *ssa.BasicBlock
 }
 
+// reachingStores: the values a local may hold just before instruction `before`
+// of block blk (nearest store on every backward path); zero reports that the
+// function entry is reachable without a store (the local still has its zero value).
+func reachingStores(a *ssa.Alloc, blk *ssa.BasicBlock, before ssa.Instruction) (vals []ssa.Value, zero bool) {
+	seen := map[*ssa.BasicBlock]bool{}
+	have := map[ssa.Value]bool{}
+	var walk func(b *ssa.BasicBlock, upto int)
+	walk = func(b *ssa.BasicBlock, upto int) {
+		for i := upto - 1; i >= 0; i-- {
+			if st, ok := b.Instrs[i].(*ssa.Store); ok && st.Addr == ssa.Value(a) {
+				if !have[st.Val] {
+					have[st.Val] = true
+					vals = append(vals, st.Val)
+				}
+				return
+			}
+		}
+		if len(b.Preds) == 0 {
+			zero = true
+			return
+		}
+		for _, p := range b.Preds {
+			if !seen[p] {
+				seen[p] = true
+				walk(p, len(p.Instrs))
+			}
+		}
+	}
+	idx := len(blk.Instrs)
+	for i, in := range blk.Instrs {
+		if in == before {
+			idx = i
+		}
+	}
+	walk(blk, idx)
+	return
+}
+
+// aliasLoads: v itself and every load of a local whose only reaching store at
+// that load is v (a result kept in a variable, e.g. `if err = f(); err != nil`).
+func aliasLoads(v ssa.Value) []ssa.Value {
+	out := []ssa.Value{v}
+	refs := v.Referrers()
+	if refs == nil {
+		return out
+	}
+	for _, r := range *refs {
+		st, ok := r.(*ssa.Store)
+		if !ok || st.Val != v {
+			continue
+		}
+		al, ok := st.Addr.(*ssa.Alloc)
+		if !ok {
+			continue
+		}
+		for _, ar := range *al.Referrers() {
+			l, ok := ar.(*ssa.UnOp)
+			if !ok || l.Op != token.MUL {
+				continue
+			}
+			vals, zero := reachingStores(al, l.Block(), l)
+			if !zero && len(vals) == 1 && vals[0] == v {
+				out = append(out, l)
+			}
+		}
+	}
+	return out
+}
+
+// nilChecksOf: nil tests of v or of a variable that holds v.
 func nilChecksOf(v ssa.Value) []nilCheck {
+	var out []nilCheck
+	for _, a := range aliasLoads(v) {
+		out = append(out, nilChecksOf1(a)...)
+	}
+	return out
+}
+
+func nilChecksOf1(v ssa.Value) []nilCheck {
 	var out []nilCheck
 	refs := v.Referrers()
 	if refs == nil {
@@ -238,18 +316,102 @@ func returnValues(ret *ssa.Return, i int) []ssa.Value {
 				}
 			}
 			if last != nil {
-				return []ssa.Value{last}
+				return resolveLoads([]ssa.Value{last}, 0)
 			}
-			var all []ssa.Value
-			for _, r := range *a.Referrers() {
-				if st, ok := r.(*ssa.Store); ok && st.Addr == a {
-					all = append(all, st.Val)
-				}
+			vals, zero := reachingStores(a, blk, u)
+			if zero {
+				vals = append(vals, ssa.NewConst(nil, a.Type().(*types.Pointer).Elem()))
 			}
-			return all
+			return resolveLoads(vals, 0)
 		}
 	}
 	return []ssa.Value{v}
+}
+
+// resolveLocal looks through a load of a field of a local struct variable
+// that is initialised once (added := token{rule, begin, position}; … added.end):
+// the value stored into that field. Anything else is returned unchanged.
+func resolveLocal(x ssa.Value) ssa.Value {
+	for depth := 0; depth < 4; depth++ {
+		u, ok := x.(*ssa.UnOp)
+		if !ok || u.Op != token.MUL {
+			return x
+		}
+		fa, ok := u.X.(*ssa.FieldAddr)
+		if !ok {
+			return x
+		}
+		al, ok := fa.X.(*ssa.Alloc)
+		if !ok {
+			return x
+		}
+		field := fa.Field
+		var vals []ssa.Value
+		for hop := 0; hop < 3; hop++ {
+			vals = nil
+			var wholes []ssa.Value
+			for _, r := range *al.Referrers() {
+				switch y := r.(type) {
+				case *ssa.FieldAddr:
+					if y.Field != field {
+						continue
+					}
+					for _, rr := range *y.Referrers() {
+						if st, ok := rr.(*ssa.Store); ok && st.Addr == ssa.Value(y) {
+							vals = append(vals, st.Val)
+						}
+					}
+				case *ssa.Store:
+					if y.Addr == ssa.Value(al) {
+						wholes = append(wholes, y.Val)
+					}
+				}
+			}
+			if len(wholes) == 0 {
+				break
+			}
+			// the variable was initialised from a composite literal built in a temporary
+			if len(wholes) == 1 && len(vals) == 0 {
+				if l, ok := wholes[0].(*ssa.UnOp); ok && l.Op == token.MUL {
+					if b, ok := l.X.(*ssa.Alloc); ok {
+						al = b
+						continue
+					}
+				}
+			}
+			return x
+		}
+		if len(vals) != 1 {
+			return x
+		}
+		x = vals[0]
+	}
+	return x
+}
+
+// resolveLoads replaces loads of locals by the values that reach them
+// (`return err` on a named result compiles to t = *err; *err = t; … return *err).
+func resolveLoads(vals []ssa.Value, depth int) []ssa.Value {
+	if depth > 4 {
+		return vals
+	}
+	var out []ssa.Value
+	for _, v := range vals {
+		if l, ok := v.(*ssa.UnOp); ok && l.Op == token.MUL {
+			if al, ok := l.X.(*ssa.Alloc); ok {
+				rs, zero := reachingStores(al, l.Block(), l)
+				if zero {
+					rs = append(rs, ssa.NewConst(nil, al.Type().(*types.Pointer).Elem()))
+				}
+				if len(rs) > 0 {
+					out = append(out, resolveLoads(rs, depth+1)...)
+					continue
+				}
+			}
+		}
+		out = append(out, v)
+	}
+	return out
 }
 
 // derivedFrom: is v the value e, or a phi/ChangeInterface/MakeInterface of it,
